@@ -457,10 +457,151 @@ def View.resourcesJson (v : View) : Out Json :=
   | none => .ok .null
   | some rs => serializeResources rs.1
 
+/-! ### 1 headers (the whole member; `HeaderJson` of Model/Json.lean is the subset the header theorems talk about)
+
+`derive(Serialize)` on the `image.rs` structs emits the fields in declaration order under their own
+names; offsets are those of the `repr(C)` layouts (compared with `offset_of!` by the `dirs_layout` /
+`hdr` operations of the other properties). -/
+
+/-- `(name, offset, width)` fields read little-endian relative to `base` -/
+def fieldsJson (b : Bytes) (base : Nat) (fs : List (String × Nat × Nat)) : List (String × Json) :=
+  fs.map fun f => (f.1, .num (leN b (base + f.2.1) f.2.2))
+
+/-- `IMAGE_VERSION<T>`: `"Major.Minor"`, `T` of `w` bytes -/
+def versionAt (b : Bytes) (o w : Nat) : Json := .str (versionText (leN b o w, leN b (o + w) w))
+
+/-- `[u16; n]` -/
+def u16Array (b : Bytes) (o n : Nat) : Json := nums ((List.range n).map fun i => le16 b (o + 2 * i))
+
+-- src: image.rs:IMAGE_DOS_HEADER
+def dosHeaderJson (b : Bytes) : Json :=
+  .struct (fieldsJson b 0 [("e_magic", 0, 2), ("e_cblp", 2, 2), ("e_cp", 4, 2), ("e_crlc", 6, 2), ("e_cparhdr", 8, 2),
+      ("e_minalloc", 10, 2), ("e_maxalloc", 12, 2), ("e_ss", 14, 2), ("e_sp", 16, 2), ("e_csum", 18, 2), ("e_ip", 20, 2),
+      ("e_cs", 22, 2), ("e_lfarlc", 24, 2), ("e_ovno", 26, 2)] ++
+    [("e_res", u16Array b 28 4)] ++ fieldsJson b 0 [("e_oemid", 36, 2), ("e_oeminfo", 38, 2)] ++
+    [("e_res2", u16Array b 40 10)] ++ fieldsJson b 0 [("e_lfanew", 60, 4)])
+
+-- src: image.rs:IMAGE_FILE_HEADER
+def fileHeaderJson (b : Bytes) (o : Nat) : Json :=
+  .struct (fieldsJson b o [("Machine", 0, 2), ("NumberOfSections", 2, 2), ("TimeDateStamp", 4, 4),
+    ("PointerToSymbolTable", 8, 4), ("NumberOfSymbols", 12, 4), ("SizeOfOptionalHeader", 16, 2), ("Characteristics", 18, 2)])
+
+-- src: image.rs:IMAGE_OPTIONAL_HEADER32 / IMAGE_OPTIONAL_HEADER64   (`DataDirectory` is `serde(skip)`)
+def optionalHeaderJson (f : Fmt) (b : Bytes) (o : Nat) : Json :=
+  let common1 := fieldsJson b o [("Magic", 0, 2)] ++ [("LinkerVersion", versionAt b (o + 2) 1)] ++
+    fieldsJson b o [("SizeOfCode", 4, 4), ("SizeOfInitializedData", 8, 4), ("SizeOfUninitializedData", 12, 4),
+      ("AddressOfEntryPoint", 16, 4), ("BaseOfCode", 20, 4)]
+  let base := match f with
+    | .pe32 => fieldsJson b o [("BaseOfData", 24, 4), ("ImageBase", 28, 4)]
+    | .pe64 => fieldsJson b o [("ImageBase", 24, 8)]
+  let common2 := fieldsJson b o [("SectionAlignment", 32, 4), ("FileAlignment", 36, 4)] ++
+    [("OperatingSystemVersion", versionAt b (o + 40) 2), ("ImageVersion", versionAt b (o + 44) 2),
+     ("SubsystemVersion", versionAt b (o + 48) 2)] ++
+    fieldsJson b o [("Win32VersionValue", 52, 4), ("SizeOfImage", 56, 4), ("SizeOfHeaders", 60, 4), ("CheckSum", 64, 4),
+      ("Subsystem", 68, 2), ("DllCharacteristics", 70, 2)]
+  let tail := match f with
+    | .pe32 => fieldsJson b o [("SizeOfStackReserve", 72, 4), ("SizeOfStackCommit", 76, 4), ("SizeOfHeapReserve", 80, 4),
+        ("SizeOfHeapCommit", 84, 4), ("LoaderFlags", 88, 4), ("NumberOfRvaAndSizes", 92, 4)]
+    | .pe64 => fieldsJson b o [("SizeOfStackReserve", 72, 8), ("SizeOfStackCommit", 80, 8), ("SizeOfHeapReserve", 88, 8),
+        ("SizeOfHeapCommit", 96, 8), ("LoaderFlags", 104, 4), ("NumberOfRvaAndSizes", 108, 4)]
+  .struct (common1 ++ base ++ common2 ++ tail)
+
+-- src: util/mod.rs:trimn
+def trimn (l : List Nat) : List Nat := (l.reverse.dropWhile (· == 0)).reverse
+
+-- src: wrap/sections.rs:serialize_name   (`parsen`: the name without trailing NULs when that is UTF-8,
+-- else `serialize_bytes` of all eight bytes — a sequence of numbers in serde_json)
+def sectionNameJson (b : Bytes) (o : Nat) : Json :=
+  let name := (List.range 8).map fun i => byteAt b (o + i)
+  if (Resources.utf8Chars (trimn name)).isSome then .str (trimn name) else nums name
+
+-- src: image.rs:IMAGE_SECTION_HEADER
+def sectionHeaderJson (b : Bytes) (o : Nat) : Json :=
+  .struct ([("Name", sectionNameJson b o)] ++ fieldsJson b o [("VirtualSize", 8, 4), ("VirtualAddress", 12, 4),
+    ("SizeOfRawData", 16, 4), ("PointerToRawData", 20, 4), ("PointerToRelocations", 24, 4), ("PointerToLinenumbers", 28, 4),
+    ("NumberOfRelocations", 32, 2), ("NumberOfLinenumbers", 34, 2), ("Characteristics", 36, 4)])
+
+/-- src: stringify.rs `flags!`::to_strs — the identifiers of the set bits, lowest bit first
+(every bit index of these three tables has an identifier) -/
+def flagNames (tbl : List String) (x : Nat) : Json :=
+  .arr ((List.range tbl.length).filterMap fun i => if x / 2 ^ i % 2 = 1 then tbl[i]?.map lit else none)
+
+-- src: stringify.rs:FileChars, DllChars, SectionChars (`stringify!($name)`)
+def fileCharNames : List String := ["IMAGE_FILE_RELOCS_STRIPPED", "IMAGE_FILE_EXECUTABLE_IMAGE", "IMAGE_FILE_LINE_NUMS_STRIPPED",
+  "IMAGE_FILE_LOCAL_SYMS_STRIPPED", "IMAGE_FILE_AGGRESIVE_WS_TRIM", "IMAGE_FILE_LARGE_ADDRESS_AWARE", "IMAGE_FILE_6",
+  "IMAGE_FILE_BYTES_REVERSED_LO", "IMAGE_FILE_32BIT_MACHINE", "IMAGE_FILE_DEBUG_STRIPPED", "IMAGE_FILE_REMOVABLE_RUN_FROM_SWAP",
+  "IMAGE_FILE_NET_RUN_FROM_SWAP", "IMAGE_FILE_SYSTEM", "IMAGE_FILE_DLL", "IMAGE_FILE_UP_SYSTEM_ONLY", "IMAGE_FILE_BYTES_REVERSED_HI"]
+def dllCharNames : List String := ["IMAGE_DLLCHARACTERISTICS_0", "IMAGE_DLLCHARACTERISTICS_1", "IMAGE_DLLCHARACTERISTICS_2",
+  "IMAGE_DLLCHARACTERISTICS_3", "IMAGE_DLLCHARACTERISTICS_4", "IMAGE_DLLCHARACTERISTICS_HIGH_ENTROPY_VA",
+  "IMAGE_DLLCHARACTERISTICS_DYNAMIC_BASE", "IMAGE_DLLCHARACTERISTICS_FORCE_INTEGRITY", "IMAGE_DLLCHARACTERISTICS_NX_COMPAT",
+  "IMAGE_DLLCHARACTERISTICS_NO_ISOLATION", "IMAGE_DLLCHARACTERISTICS_NO_SEH", "IMAGE_DLLCHARACTERISTICS_NO_BIND",
+  "IMAGE_DLLCHARACTERISTICS_APPCONTAINER", "IMAGE_DLLCHARACTERISTICS_WDM_DRIVER", "IMAGE_DLLCHARACTERISTICS_GUARD_CF",
+  "IMAGE_DLLCHARACTERISTICS_TERMINAL_SERVER_AWARE"]
+def sectionCharNames : List String := ["IMAGE_SCN_0", "IMAGE_SCN_1", "IMAGE_SCN_2", "IMAGE_SCN_TYPE_NO_PAD", "IMAGE_SCN_4",
+  "IMAGE_SCN_CNT_CODE", "IMAGE_SCN_CNT_INITIALIZED_DATA", "IMAGE_SCN_CNT_UNINITIALIZED_DATA", "IMAGE_SCN_LNK_OTHER",
+  "IMAGE_SCN_LNK_INFO", "IMAGE_SCN_10", "IMAGE_SCN_LNK_REMOVE", "IMAGE_SCN_LNK_COMDAT", "IMAGE_SCN_13",
+  "IMAGE_SCN_NO_DEFER_SPEC_EXC", "IMAGE_SCN_GPREL", "IMAGE_SCN_16", "IMAGE_SCN_MEM_PURGEABLE", "IMAGE_SCN_MEM_LOCKED",
+  "IMAGE_SCN_MEM_PRELOAD", "IMAGE_SCN_ALIGN_1", "IMAGE_SCN_ALIGN_2", "IMAGE_SCN_ALIGN_4", "IMAGE_SCN_ALIGN_8",
+  "IMAGE_SCN_LNK_NRELOC_OVFL", "IMAGE_SCN_MEM_DISCARDABLE", "IMAGE_SCN_MEM_NOT_CACHED", "IMAGE_SCN_MEM_NOT_PAGED",
+  "IMAGE_SCN_MEM_SHARED", "IMAGE_SCN_MEM_EXECUTE", "IMAGE_SCN_MEM_READ", "IMAGE_SCN_MEM_WRITE"]
+
+-- src: stringify.rs:Machine / OptionalMagic / Subsystem / DirectoryEntry ::to_str
+def machineName (x : Nat) : Option String :=
+  if x = 0x14c then some "IMAGE_FILE_MACHINE_I386" else if x = 0x8664 then some "IMAGE_FILE_MACHINE_AMD64"
+  else if x = 0x200 then some "IMAGE_FILE_MACHINE_IA64" else none
+def optionalMagicName (x : Nat) : Option String :=
+  if x = 0x10b then some "IMAGE_NT_OPTIONAL_HDR32_MAGIC" else if x = 0x20b then some "IMAGE_NT_OPTIONAL_HDR64_MAGIC"
+  else if x = 0x107 then some "IMAGE_ROM_OPTIONAL_HDR_MAGIC" else none
+def subsystemName (x : Nat) : Option String :=
+  match x with
+  | 0 => some "IMAGE_SUBSYSTEM_UNKNOWN" | 1 => some "IMAGE_SUBSYSTEM_NATIVE" | 2 => some "IMAGE_SUBSYSTEM_WINDOWS_GUI"
+  | 3 => some "IMAGE_SUBSYSTEM_WINDOWS_CUI" | 5 => some "IMAGE_SUBSYSTEM_OS2_CUI" | 7 => some "IMAGE_SUBSYSTEM_POSIX_CUI"
+  | 8 => some "IMAGE_SUBSYSTEM_NATIVE_WINDOWS" | 9 => some "IMAGE_SUBSYSTEM_WINDOWS_CE_GUI"
+  | 10 => some "IMAGE_SUBSYSTEM_EFI_APPLICATION" | 11 => some "IMAGE_SUBSYSTEM_EFI_BOOT_SERVICE_DRIVER"
+  | 12 => some "IMAGE_SUBSYSTEM_EFI_RUNTIME_DRIVER" | 13 => some "IMAGE_SUBSYSTEM_EFI_ROM" | 14 => some "IMAGE_SUBSYSTEM_XBOX"
+  | 16 => some "IMAGE_SUBSYSTEM_WINDOWS_BOOT_APPLICATION"
+  | _ => none
+def directoryEntryNames : List String := ["IMAGE_DIRECTORY_ENTRY_EXPORT", "IMAGE_DIRECTORY_ENTRY_IMPORT",
+  "IMAGE_DIRECTORY_ENTRY_RESOURCE", "IMAGE_DIRECTORY_ENTRY_EXCEPTION", "IMAGE_DIRECTORY_ENTRY_SECURITY",
+  "IMAGE_DIRECTORY_ENTRY_BASERELOC", "IMAGE_DIRECTORY_ENTRY_DEBUG", "IMAGE_DIRECTORY_ENTRY_ARCHITECTURE",
+  "IMAGE_DIRECTORY_ENTRY_GLOBALPTR", "IMAGE_DIRECTORY_ENTRY_TLS", "IMAGE_DIRECTORY_ENTRY_LOAD_CONFIG",
+  "IMAGE_DIRECTORY_ENTRY_BOUND_IMPORT", "IMAGE_DIRECTORY_ENTRY_IAT", "IMAGE_DIRECTORY_ENTRY_DELAY_IMPORT",
+  "IMAGE_DIRECTORY_ENTRY_COM_DESCRIPTOR"]
+
+-- src: headers.rs:<Details as Serialize>::serialize
+def View.detailsJson (v : View) : Json :=
+  let h := v.headerJson
+  let fh := eLfanew v.b + 4
+  .struct [
+    ("DosHeader.e_magic", lit "MZ"), ("NtHeaders.Signature", lit "PE"),
+    ("FileHeader.Machine", opt lit (machineName (le16 v.b fh))),
+    ("FileHeader.Characteristics", flagNames fileCharNames (le16 v.b (fh + 18))),
+    ("OptionalHeader.Magic", opt lit (optionalMagicName (optMagic v.b))),
+    ("OptionalHeader.CheckSum", .num h.detCheckSum),
+    ("OptionalHeader.Subsystem", opt lit (subsystemName (le16 v.b (optOff v.b + 68)))),
+    ("OptionalHeader.DllCharacteristics", flagNames dllCharNames (le16 v.b (optOff v.b + 70))),
+    ("DataDirectory.Names", .arr ((List.range h.dataDirectory.length).map fun i => opt lit directoryEntryNames[i]?)),
+    ("DataDirectory.Sections", .arr (h.detDdSections.map (opt .num))),
+    ("SectionHeaders.Characteristics", .arr (h.sections.map fun s => flagNames sectionCharNames s.chars))]
+
+-- src: headers.rs:<Headers as Serialize>::serialize
+def View.headersJson (v : View) : Json :=
+  let h := v.headerJson
+  .struct [
+    ("DosHeader", dosHeaderJson v.b),
+    ("NtHeaders", .struct [("Signature", .num (le32 v.b (eLfanew v.b))), ("FileHeader", fileHeaderJson v.b (eLfanew v.b + 4)),
+      ("OptionalHeader", optionalHeaderJson v.fmt v.b (optOff v.b))]),
+    ("DataDirectory", .arr (h.dataDirectory.map fun d => .struct [("VirtualAddress", .num d.1), ("Size", .num d.2)])),
+    ("SectionHeaders", .arr ((List.range (numberOfSections v.b)).map fun i => sectionHeaderJson v.b (secTable v.b + 40 * i))),
+    ("details", v.detailsJson)]
+
 /-! ### the document -/
 
 /-- what `serialize_pe` hands to the serializer, field by field (typed; "resources" is a tree) -/
 structure PeJson where
+  /-- the member "headers", whole -/
+  headersDoc : Json
+  /-- the part of it the header theorems (`Thm/C19.lean`) are about -/
   headers : HeaderJson
   richStructure : Option RichJson
   exports : Option ExportsJson
@@ -483,10 +624,11 @@ def View.serializePe (v : View) : Out PeJson :=
   v.loadConfigJson >>= fun loadConfig =>
   v.securityJson >>= fun security =>
   v.resourcesJson >>= fun resources =>
-  .ok { headers := v.headerJson, richStructure, exports, imports, baseRelocs, debug, tls, loadConfig, security, resources }
+  .ok { headersDoc := v.headersJson, headers := v.headerJson, richStructure, exports, imports, baseRelocs, debug, tls, loadConfig, security, resources }
 
 def PeJson.toJson (p : PeJson) : Json :=
   .struct [
+    ("headers", p.headersDoc),
     ("rich_structure", opt RichJson.toJson p.richStructure),
     ("exports", opt ExportsJson.toJson p.exports),
     ("imports", opt (fun l => .arr (l.map DescJson.toJson)) p.imports),
